@@ -770,12 +770,12 @@ VARIANTS['C14'] += [
 
 VARIANTS['C06'] += [
     V('static timeline absorbs the drift in its last entry',
-      [(REPF, "            mod_segment = 1\n            drift = 0\n            end = ref_duration_tc\n",
-        "            mod_segment = 1\n            drift = ref_duration_tc - self.mediaDuration\n            end = ref_duration_tc\n")],
+      [(REPF, "            mod_segment = 1\n            drift = 0\n",
+        "            mod_segment = 1\n            drift = ref_duration_tc - self.mediaDuration\n")],
       'R06.6', 'generateSegmentTimeline'),
     V('neutral: static drift named',
-      [(REPF, "            mod_segment = 1\n            drift = 0\n            end = ref_duration_tc\n",
-        "            mod_segment = 1\n            no_drift = 0\n            drift = no_drift\n            end = ref_duration_tc\n")], None),
+      [(REPF, "            mod_segment = 1\n            drift = 0\n",
+        "            mod_segment = 1\n            no_drift = 0\n            drift = no_drift\n")], None),
 ]
 
 VARIANTS['C18'] += [
